@@ -235,6 +235,7 @@ class _ThirdArr(usercats.DuckArr):
     """a third array type (its instances are DuckArr instances too)"""
 
 
+T_CONS_SCALAR = TypeVar("T_CONS_SCALAR", np.ndarray, float)  # constraints mixing an array class and a Python scalar type
 T_CONS_UNION = TypeVar("T_CONS_UNION", Union[np.ndarray, usercats.DuckArr], _ThirdArr)  # a constraint that is itself a union
 T_CONS_BAR = TypeVar("T_CONS_BAR", np.ndarray | usercats.DuckArr, _ThirdArr)
 try:  # PEP 696 defaults (typing_extensions builds genuine typing.TypeVar objects): a default says nothing about what the TypeVar may stand for
@@ -279,6 +280,8 @@ def law_union_typevar(ctx, cat, spec, form):
         lhs, rhs = (lambda: D[T_BOUND_DEFAULT, spec]), (lambda: Union[D[A, spec], D[B, spec]])
     elif form == "tv-constrained-default":
         lhs, rhs = (lambda: D[T_CONS_DEFAULT, spec]), (lambda: Union[D[A, spec], D[B, spec]])
+    elif form == "tv-constrained-scalar":
+        lhs, rhs = (lambda: D[T_CONS_SCALAR, spec]), (lambda: D[Union[np.ndarray, float], spec])
     elif form == "tv-constrained-union":
         lhs, rhs = (lambda: D[T_CONS_UNION, spec]), (lambda: Union[D[A, spec], D[B, spec], D[_ThirdArr, spec]])
     elif form == "tv-constrained-bar":
@@ -462,7 +465,7 @@ def run(ctx):
     ctx.hyp(nesting3, max_examples=ctx.n(120, 1200))
 
     @given(st.sampled_from(["Float", "Shaped", "Int", "Num", "Bool", "Float32", "UInt8", "Key"] + CATS), spec_st,
-           st.sampled_from(["Union-nested", "Union", "Union-rev", "bar", "bar-nested", "union3", "tv-plain", "tv-bound", "tv-bound-union", "tv-constrained", "tv-constrained-union", "tv-constrained-bar"]
+           st.sampled_from(["Union-nested", "Union", "Union-rev", "bar", "bar-nested", "union3", "tv-plain", "tv-bound", "tv-bound-union", "tv-constrained", "tv-constrained-union", "tv-constrained-bar", "tv-constrained-scalar"]
                            + (["tv-bound-default", "tv-plain-default", "tv-constrained-default"] if T_PLAIN_DEFAULT is not None else [])))
     def union_typevar(cat, toks, form):
         obs.reset_state()
